@@ -200,7 +200,19 @@ def run_react(c):
     omd = None if v['omd'] is None else [mk(i) for i in range(v['omd'])]
     smd = None if v['smd'] is None else [mk(i) for i in range(v['smd'])]
     if site == 'ctor':
-        ev = observe(lambda: Table(data, oids, sids, omd, smd) and None)
+        # the same matrix handed over in another shape-stating input form (the reaction table does not depend on it)
+        import scipy.sparse as _sp
+        form = c.get('form', 'ndarray')
+        kw = {}
+        if form == 'dense_lists':
+            data, kw = data.tolist(), {'input_is_dense': True}
+        elif form in ('csr', 'csc', 'coo'):
+            data = getattr(_sp, form + '_matrix')(data)
+        elif form == 'rows':
+            data = [r for r in data]
+        elif form == 'sparse_rows':
+            data = [_sp.csr_matrix(r) for r in data]
+        ev = observe(lambda: Table(data, oids, sids, omd, smd, **kw) and None)
     elif site == 'filter':
         # build a valid table silently, then filter everything out (or nothing) on one axis
         t = base
@@ -441,6 +453,10 @@ def react_cases():
                 rows, cols, oids, sids, omd, smd = _defect(k, trig)
                 out.append({'kind': 'react', 'site': 'ctor', 'errkind': k, 'reaction': r, 'trigger': trig,
                             'view': view_of_table_args(rows, cols, oids, sids, omd, smd)})
+                if rows:
+                    for form in ('dense_lists', 'csr', 'csc', 'coo', 'rows', 'sparse_rows'):
+                        out.append({'kind': 'react', 'site': 'ctor', 'errkind': k, 'reaction': r, 'trigger': trig, 'form': form,
+                                    'view': view_of_table_args(rows, cols, oids, sids, omd, smd)})
                 if trig and k in ('obsmdsize', 'sampmdsize'):
                     # metadata of the wrong size whose entries are all None / all empty is still the wrong size
                     for mdkind in ('none', 'empty'):
@@ -489,7 +505,7 @@ def nontrivial(c):
 
 def classify(c):
     if c['kind'] == 'react':
-        return ['react:' + c['site']]
+        return ['react:' + c['site'], 'form:' + c.get('form', 'ndarray')]
     tags = ['prog']
     def walk(p, d):
         for i in p:
